@@ -88,4 +88,6 @@ def fix_deprecated(workpath: Path, fix: bool, cleanup: bool):
                         # Rename the folder
                         oldjobpath.rename(newjobpath)
                     else:
-                        newjobpath.symlink_to(oldjobpath)
+                        # (absolute target: a relative one would be interpreted
+                        # relatively to the directory of the link)
+                        newjobpath.symlink_to(oldjobpath.resolve())
